@@ -79,6 +79,7 @@ svars == <<at, seen, flows, bufs>>
 vars  == <<svars, last, hist>>
 view  == <<svars, last>>
 viewE == svars
+viewN == <<svars, Len(hist)>>   \* all histories up to a length: one layer per length
 
 \* a cached flow: pattern (0 = any) + what the design needs to run it
 \*   [inp, src, dst, shs, out, ito, hto, age, idle, stale]
